@@ -4,3 +4,4 @@ import ArtModel.Kernels
 import ArtModel.ARTMAP
 import ArtModel.Driver
 import ArtModel.Dispatch
+import ArtModel.Restore
